@@ -51,6 +51,9 @@ type Leaf interface {
 	// match returns true if the leaf matches the segment, values of bind parameters
 	// are stored in the `Params`.
 	match(segment string, params Params, header http.Header) bool
+	// setWithoutOptional sets the leaf of the same route without its optional
+	// segment.
+	setWithoutOptional(l Leaf)
 }
 
 // baseLeaf contains common fields for any leaf.
@@ -60,6 +63,10 @@ type baseLeaf struct {
 	segment       *Segment       // The segment that the leaf is derived from.
 	handler       Handler        // The handler bound to the leaf.
 	headerMatcher *HeaderMatcher // The matcher for header values.
+
+	// withoutOptional is the leaf of the same route without its optional segment,
+	// nil when the segment is not optional.
+	withoutOptional Leaf
 }
 
 func (l *baseLeaf) getParent() Tree {
@@ -72,6 +79,15 @@ func (l *baseLeaf) getSegment() *Segment {
 
 func (l *baseLeaf) SetHeaderMatcher(m *HeaderMatcher) {
 	l.headerMatcher = m
+
+	// The route is also reachable without its optional segment.
+	if l.withoutOptional != nil {
+		l.withoutOptional.SetHeaderMatcher(m)
+	}
+}
+
+func (l *baseLeaf) setWithoutOptional(withoutOptional Leaf) {
+	l.withoutOptional = withoutOptional
 }
 
 func (l *baseLeaf) matchHeader(header http.Header) bool {
